@@ -17,6 +17,7 @@ import time
 import traceback
 
 from . import tlc
+from .terms import Deadline
 
 VERIF = tlc.VERIF
 # Evidence and replay files go under /verif unless VERIF_OUT names another directory (used only by
@@ -160,7 +161,7 @@ def main(argv=None) -> int:
     except tlc.MachineryError as e:
         print(f"MACHINERY-FAILURE property={pid}: {e}", file=sys.stderr)
         return 2
-    except Exception:
+    except (Exception, Deadline):      # a stray watchdog alarm is a machinery failure, never a verdict
         traceback.print_exc()
         print(f"MACHINERY-FAILURE property={pid}: unexpected exception in the harness", file=sys.stderr)
         return 2
